@@ -174,8 +174,8 @@ let vh_cmd (script : string) : string =
       | "ext" -> opt_set (M.try_extend heap !v (limbs_of a.(1)))
       | "rsz" -> opt_set (M.try_resize heap !v (dec a.(1)) (dec a.(2)))
       | "norm" -> v := M.vset_list !v (M.normalize_list (!v).M.vl); "u"
-      | "adds" -> opt_set (M.small_add c !v (dec a.(1)))
-      | "muls" -> opt_set (M.small_mul c !v (dec a.(1)))
+      | "adds" -> (match M.small_add c !v (dec a.(1)) with Some n -> v := n; "s" | None -> v := M.small_add_failed !v (dec a.(1)); "n")
+      | "muls" -> (match M.small_mul c !v (dec a.(1)) with Some n -> v := n; "s" | None -> v := M.small_mul_failed !v (dec a.(1)); "n")
       | "clone" -> v := M.vclone heap !v; "u"
       | "set" ->
           let idx = Z.to_int (Z.of_string a.(1)) in
